@@ -369,6 +369,47 @@ def explore_task(task, res):
     _timing_and_unowned(task, res, t_start, unowned0)
 
 
+# ------------------------------------------------------------------ shape sequences in one interpreter
+SEQ_SHAPES = [[(2, 2), (2, 3), (3, 2), (1, 3), (3, 1)], [(3, 1), (1, 3), (3, 2), (2, 3), (2, 2)], [(1, 2), (2, 1), (2, 2), (1, 3), (2, 3)]]
+
+
+def sequence_tasks(tier, which):
+    """every generator on several grid shapes that share a row or column count, one after the other in ONE fresh interpreter:
+    what a generator (or a helper it calls) remembered from an earlier grid must not change its behaviour on a later one"""
+    T = []
+    for gen, kw, mode, rand in (("gen_dfs", {}, "stateless", "default"), ("gen_wilson", {}, "state", "default"), ("gen_prim", {}, "state", "default"),
+                                ("gen_percolation", dict(p=0.4), "stateless", "tiny"), ("gen_dfs_percolation", dict(p=0.4), "stateless", "tiny"),
+                                ("gen_dfs", dict(accessible_cells=3, start_coord=(0, 0)), "stateless", "default")):
+        for shapes in SEQ_SHAPES:
+            T.append(dict(which=which, tier=tier, sequence=[dict(gen=gen, shape=sh, kws=[dict(kw)], mode=mode, rand=rand, which=which, tier=tier) for sh in shapes]))
+    return T
+
+
+def sequence_task(t, res, upto=None):
+    from ..runner import Result
+
+    seq = t["sequence"]
+    for k, sub in enumerate(seq):
+        sub = dict(sub, shape=tuple(sub["shape"]))
+        for kw in sub["kws"]:
+            if kw.get("start_coord") is not None:
+                kw["start_coord"] = tuple(kw["start_coord"])
+        r2 = Result()
+        explore_task(sub, r2)
+        res.evaluations += r2.evaluations
+        for name in ("states", "transitions", "executions", "unowned_draws", "capped_tasks", "random_path_executions"):
+            if r2.counters.get(name):
+                res.count(name, r2.counters[name])
+        res.count("sequence_elements")
+        res.nontrivial(("seq", sub["gen"], repr(sub["kws"]), tuple(tuple(x["shape"]) for x in seq), k))
+        before = "+".join(f"{x['shape'][0]}x{x['shape'][1]}" for x in seq[:k]) or "nothing"
+        for f in r2.fails:
+            res.fail(f["key"] + f"|after_{before}_in_the_same_process", f"as element {k} of a sequence of grid shapes generated in one process: " + f["what"],
+                     dict(kind="sequence", task=dict(t, sequence=seq[:k + 1])))
+        if r2.fails:
+            return
+
+
 def _timing(task, res, t_start):
     res.add("timing", (round(time.time() - t_start, 1), task["gen"], tuple(task["shape"]), task["mode"], len(task["kws"]),
                        task.get("rand", ""), res.counters.get("capped_tasks", 0)))
@@ -380,6 +421,9 @@ def _timing_and_unowned(task, res, t_start, unowned0):
 
 
 def replay_case(d, res, which):
+    if d.get("kind") == "sequence":
+        sequence_task(d["task"], res)
+        return
     if d.get("kind") == "task":
         t = d["task"]
         t["shape"] = tuple(t["shape"])
